@@ -151,7 +151,7 @@ def orchestrate(args):
         return 1
     if agg['inconclusive']:
         for r in agg['inconclusive'][:5]:
-            print(f'INCONCLUSIVE property={prop} reason={r[:600]}')
+            print(f"INCONCLUSIVE property={prop} reason=" + r[-700:].replace("\n", " | "))
         return 2
     print(f'[{prop}] held on everything explored')
     return 0
